@@ -333,7 +333,7 @@ def run_shard(spec, workdir):
             if w.findings:
                 V(f"side-effect-while-{phase}", f"{phase} of {ops}: {w.findings[:3]}", case, {"ops": ops, "findings": w.findings[:6], "phase": phase})
         shutil.rmtree(wd, ignore_errors=True)
-        if k < 1 and spec.get("shard", 0) == 0:
+        if not res["samples"] and spec.get("shard", 0) == 0:
             res["samples"].append({"recipe": recipe, "phases": ["build", "plan", "inspect"]})
     # ---- direct calls and documented triggers
     wd = os.path.join(workdir, "direct")
